@@ -37,6 +37,7 @@ const (
 	TArray
 	TDoc
 	TMissing
+	TFlatArr
 	TNumbers = TInt32 | TInt64 | TDouble
 	TScalars = TNull | TInt32 | TInt64 | TDouble | TString | TBool | TDate | TTimestamp | TObjectID | TBinary | TRegex
 	TAll     = TScalars | TArray | TDoc
@@ -48,7 +49,25 @@ var commonAssumptions = []string{
 	"strings are concrete on every path (finite pools stated in bounds); Decimal128, regexp/$jsonSchema and the reflection-driven mongo-driver codec are outside every bound (DESIGN.md section 6)",
 }
 
+const c10Tags = TNull | TInt32 | TInt64 | TDouble | TString | TBool | TArray | TDoc
+
 var checks = []Check{
+	{
+		Property: "C10",
+		Harnesses: []Harness{
+			{Dir: "mongokit", Func: "H_C10_gte", Quick: P{"ddepth": 1, "vdepth": 0, "dlen": 1}, Thorough: P{"ddepth": 2, "vdepth": 1}},
+			{Dir: "mongokit", Func: "H_C10_neg", Quick: P{"ddepth": 1, "vdepth": 0, "dlen": 1}, Thorough: P{"ddepth": 2, "vdepth": 1}},
+			{Dir: "mongokit", Func: "H_C10_in", Quick: P{"ddepth": 0, "vdepth": 0, "dlen": 1}, Thorough: P{"ddepth": 1, "vdepth": 1}},
+			{Dir: "mongokit", Func: "H_C10_andor", Quick: P{"ddepth": 0, "vdepth": 0, "dlen": 2, "dtags": TNull | TInt32 | TString, "vtags": TInt32 | TString},
+				Thorough: P{"ddepth": 1, "vdepth": 0, "dlen": 2, "dtags": TNull | TInt32 | TDouble | TString | TArray, "vtags": TInt32 | TDouble | TString}},
+			{Dir: "mongokit", Func: "H_C10_refcmp", Quick: P{"ddepth": 1, "vdepth": 0, "dlen": 1}, Thorough: P{"ddepth": 2, "vdepth": 1}},
+			{Dir: "mongokit", Func: "H_C10_refmisc", Quick: P{"ddepth": 1, "dlen": 1}, Thorough: P{"ddepth": 2}},
+		},
+		Assumptions: commonAssumptions,
+		Bounds: []string{"document: <= 2 fields (keys a,b), values null/int32/int64/double/string/bool/array/document, arrays and sub-documents of length <= 2, nesting depth ddepth; paths from {a,b,a.a,a.0,a.0.a,c}; operands any value of the same domain with depth vdepth",
+			"oracle harnesses (refcmp, refmisc) restrict to the core domain of the property: no arrays directly inside arrays; fan-out over sub-documents only with a non-null scalar operand",
+			"outside: $jsonSchema, Decimal128, regex operands, date/timestamp/objectid/binary field values in the filter harnesses (covered for Compare by C12)"},
+	},
 	{
 		Property: "C12",
 		Harnesses: []Harness{
